@@ -31,6 +31,10 @@ fn gen_c02(rng: &mut Rng, thorough: bool) -> Case {
 fn check_c02(case: &Case, out: &Outcome, h: &Hist, _g: &mut Group) -> Vec<Violation> {
     let mut v = oracle::common(case, out, h);
     v.extend(flow::causal_order(case, h));
+    // A message that causally precedes a processed one must have been processed too: on these
+    // benches (acyclic, every run completes) nothing may be lost and no command may fail.
+    v.extend(flow::conservation(case, h).into_iter().filter(|x| x.rule == "c03_lost_delivery"));
+    v.extend(flow::all_ok(h));
     v
 }
 fn nt_c02(_c: &Case, out: &Outcome, h: &Hist) -> bool {
